@@ -292,7 +292,7 @@ func guardsHold(fn *ssa.Function, flow *an.ErrFlow, guards []string) string {
 					return "when errors.As(err,&awsErr) && awsErr.Code()==NoSuchKey holds"
 				}
 			case strings.HasPrefix(g, "param:"):
-				p := an.ParamNamed(fn, strings.TrimPrefix(g, "param:"))
+				p := an.BoolParamUnderError(fn, strings.TrimPrefix(g, "param:"))
 				if p == nil {
 					return "under parameter " + g + " (parameter not found)"
 				}
